@@ -8,13 +8,15 @@ export CARGO_NET_OFFLINE=true CARGO_TARGET_DIR=$WT/target
 cd $WT || exit 9
 A=${CONFIRM_ARGS:-$(python3 -c "import json;print(json.load(open('$M/meta.json')).get('demo_cargo_args',''))" 2>/dev/null)}
 R=${CONFIRM_RUSTFLAGS:-$(python3 -c "import json;print(json.load(open('$M/meta.json')).get('demo_rustflags',''))" 2>/dev/null)}
+# the core-simd back-end needs the nightly toolchain
+TC=""; case "$A" in *core-simd*) TC="+nightly";; esac
 git checkout -q -- . ; rm -f tests/demo_confirm.rs
 git apply $M/patch.diff || { echo "APPLY_FAILED"; exit 8; }
 cargo test --workspace --no-fail-fast --offline > $M/suite.log 2>&1; SUITE=$?
 cp $M/demo.rs tests/demo_confirm.rs
-RUSTFLAGS="$R" cargo test --offline $A --test demo_confirm > $M/demo_with.log 2>&1; WITH=$?
+RUSTFLAGS="$R" cargo $TC test --offline $A --test demo_confirm > $M/demo_with.log 2>&1; WITH=$?
 git checkout -q -- .
-RUSTFLAGS="$R" cargo test --offline $A --test demo_confirm > $M/demo_without.log 2>&1; WITHOUT=$?
+RUSTFLAGS="$R" cargo $TC test --offline $A --test demo_confirm > $M/demo_without.log 2>&1; WITHOUT=$?
 rm -f tests/demo_confirm.rs
 echo "{\"suite_rc_with_mutant\": $SUITE, \"demo_rc_with_mutant\": $WITH, \"demo_rc_without\": $WITHOUT, \"demo_cargo_args\": \"$A\", \"demo_rustflags\": \"$R\"}" > $M/confirm.json
 cat $M/confirm.json
